@@ -165,6 +165,22 @@ def strict_features():
     return frozenset(feats)
 
 
+def expressible(s: ASchema) -> bool:
+    """Rules of the DBML-expressible domain that an edit script can leave."""
+    # an inline reference cannot carry a name or actions in DBML
+    if any(r.inline and r.kind != '<>' and (r.name or r.on_update or r.on_delete) for r in s.all_refs()):
+        return False
+    # a plain type must not be spelled like a declared enum (it would be that enum after parsing)
+    enum_spellings = {e.name for e in s.enums if e.schema == 'public'} | {f'{e.schema}.{e.name}' for e in s.enums}
+    if any(c.type[0] == 'plain' and c.type[1] in enum_spellings for t in s.tables for c in t.columns):
+        return False
+    return True
+
+
+def triggered(s: ASchema) -> set:
+    return {fid for feat, (fid, trig, _) in ZONES.items() if F.is_open(fid) and trig(s)}
+
+
 def explain(stage: str, s: ASchema):
     """Only a case that contains an open finding's trigger can be attributed to it, and only for a
     failure stage the finding's record lists."""
@@ -264,7 +280,7 @@ def nontrivial(s: ASchema) -> bool:
     return any(x and '\n' in x for x in _texts_single(s))
 
 
-def evaluate(s: ASchema, how: str, style=None, ctx: Ctx = None, gen_name='strict'):
+def evaluate(s: ASchema, how: str, style=None, ctx: Ctx = None, gen_name='strict', script=()):
     """how = 'parsed' | 'built'"""
     viols = []
     text = None
@@ -285,6 +301,29 @@ def evaluate(s: ASchema, how: str, style=None, ctx: Ctx = None, gen_name='strict
         return []
     vs, d1 = check_db(db, case, s, s.allow_properties)
     viols += vs
+    if script and not vs:
+        # "every database ... built through the public classes": also the one reached by editing this one in place
+        from . import sqlcommon as C
+        try:
+            s2 = C.edited(s, db, script)
+        except Exception as e:  # noqa
+            s2 = None
+            viols.append(Viol(f'edit-raised:{type(e).__name__}', f'in-place edit raised {type(e).__name__}: {e}', dict(case, script=[list(x) for x in script])))
+        if s2 is not None and not expressible(s2):
+            if ctx is not None:
+                ctx.extra['edited_outside_domain'] = ctx.extra.get('edited_outside_domain', 0) + 1
+            s2 = None
+        if s2 is not None and (triggered(s2) - triggered(s)):
+            # the edit moved the model into the zone of an open finding (e.g. a falsy default): not the strict domain
+            if ctx is not None:
+                ctx.extra['edited_into_zone'] = ctx.extra.get('edited_into_zone', 0) + 1
+            s2 = None
+        if s2 is not None:
+            case2 = dict(case, script=[list(x) for x in script], phase='edited')
+            vs2, _ = check_db(db, case2, s2, s.allow_properties)
+            viols += [Viol(v.bucket + ':after-edit', 'after in-place edits: ' + v.message, case2, finding=v.finding, size=v.size) for v in vs2]
+            if ctx is not None:
+                ctx.record(thash('edited' + how + repr(model.to_json(s2))), nontrivial(s2), ['phase:edited', f'how:{how}'])
     if ctx is not None:
         nt = nontrivial(s)
         sample = None
@@ -303,7 +342,12 @@ def replay(case):
         db = build(s)
     else:
         db = _parse(case['text'], bool(s.allow_properties) if s else bool(case.get('allow_properties')))
-    vs, _ = check_db(db, case, s, bool(s.allow_properties) if s else bool(case.get('allow_properties')))
+    props = bool(s.allow_properties) if s else bool(case.get('allow_properties'))
+    if case.get('phase') == 'edited':
+        from . import sqlcommon as C
+        db.dbml
+        s = C.edited(s, db, [tuple(x) for x in case['script']])
+    vs, _ = check_db(db, case, s, props)
     return vs
 
 
@@ -313,13 +357,16 @@ def shard(ctx: Ctx):
     sizes = gen.QUICK if quick else gen.THOROUGH
     n = 100 if quick else 900
 
+    from . import sqlcommon as C
+
     @st.composite
     def cases(draw, feats=feats):
-        return draw(gen.schemas(feats, sizes)), draw(gen.styles())
+        return draw(gen.schemas(feats, sizes)), draw(gen.styles()), draw(C.edit_scripts(3))
 
     def run(c, gen_name='strict'):
-        s, stl = c
-        return evaluate(s, 'parsed', stl, ctx, gen_name) + evaluate(s, 'built', None, ctx, gen_name)
+        s, stl = c[0], c[1]
+        script = c[2] if len(c) > 2 and gen_name == 'strict' else ()
+        return evaluate(s, 'parsed', stl, ctx, gen_name, script) + evaluate(s, 'built', None, ctx, gen_name, script)
 
     hyp_run(ctx, 'strict', cases(), run, n)
     for feat, (fid, trig, stages) in ZONES.items():
